@@ -417,6 +417,36 @@ func (e *Env) objVal(obj types.Object) SVal {
 }
 
 // localByName resolves a source-level local variable at the current point.
+// localAlloc: the address-taken local variable of that name whose allocation dominates the current point (deepest).
+func (e *Env) localAlloc(name string) *ssa.Alloc {
+	vc := e.vc
+	cb := e.block
+	if cb == nil {
+		cb = vc.curBlock
+	}
+	bestD := -1
+	var alloc *ssa.Alloc
+	for _, b := range vc.fn.Blocks {
+		for _, in := range b.Instrs {
+			if a, ok := in.(*ssa.Alloc); ok && a.Comment == name {
+				if _, has := vc.locs[a]; !has {
+					continue
+				}
+				if cb != nil && a.Block() != nil && (a.Block() == cb || a.Block().Dominates(cb)) {
+					d := 0
+					for x := a.Block(); x != nil; x = x.Idom() {
+						d++
+					}
+					if d > bestD {
+						bestD, alloc = d, a
+					}
+				}
+			}
+		}
+	}
+	return alloc
+}
+
 func (e *Env) localByName(name string) (SVal, bool) {
 	vc := e.vc
 	fn := vc.fn
@@ -864,6 +894,13 @@ func (e *Env) selectField(x SVal, name string) SVal {
 			}
 			ft := s.Field(i).Type()
 			cur = SVal{t: fmt.Sprintf("(%s %s)", vc.d.accessor(T, i), cur.t), typ: ft, sort: vc.d.sortOf(ft), st: cur.st}
+			// a field of a struct VALUE (e.g. an element of a slice of structs) read in a contract: its type-range
+			// facts (the code gets them when it loads the value; without them a solver may pick an out-of-range field)
+			// -- only for values read from the heap: for a quantifier-bound struct variable the fact would be asserted
+			// for every value of the datatype, which is contradictory (its range guard is part of the quantifier)
+			if strings.Contains(cur.t, "(select ") {
+				e.typeSide(cur.t, ft)
+			}
 		}
 	}
 	return cur
@@ -2205,6 +2242,23 @@ func (e *Env) evalLocs(x Expr) []modLoc {
 						return e.structLocs(l.key, T)
 					}
 					return []modLoc{{heap: l.heap, hsort: l.hsort, key: vc.val(fv)}}
+				}
+			}
+		}
+		if _, shadowed := e.vars[n.Name]; !shadowed && !e.noFnNames && vc.fn != nil && e.fnOverride == nil {
+			// an address-taken local variable of the function (e.g. the target of a decoder that is handed &x): the
+			// variable itself, unless it is a pointer or map variable (then, as before, what it refers to)
+			if a := e.localAlloc(n.Name); a != nil {
+				T := a.Type().Underlying().(*types.Pointer).Elem()
+				switch T.Underlying().(type) {
+				case *types.Pointer, *types.Map:
+				default:
+					if l, ok := vc.locs[a]; ok {
+						if l.kind == lStruct {
+							return e.structLocs(l.key, T)
+						}
+						return []modLoc{{heap: l.heap, hsort: l.hsort, key: l.key}}
+					}
 				}
 			}
 		}
